@@ -658,8 +658,20 @@ func checkReadUntilLoops(c *Ctx, r *Report) {
 			continue
 		}
 		reads := chunkReads(fn, chRead)
+		outer := fn
+		if len(reads) == 0 {
+			// the loop shared between the read-until variants: a helper that is handed the match predicate
+			if d := readUntilDelegate(fn, chRead); d != nil {
+				if why := d.soundDelegation(); why != "" {
+					r.Bad(rule, shortFn(outer)+" accumulates", c.Pos(fn.Pos()), shortFn(outer)+": "+why)
+					continue
+				}
+				fn = d.Loop
+				reads = chunkReads(fn, chRead)
+			}
+		}
 		if len(reads) != 1 {
-			r.Bad(rule, shortFn(fn)+" accumulates", c.Pos(fn.Pos()), "the loop does not contain exactly one Channel.Read")
+			r.Bad(rule, shortFn(outer)+" accumulates", c.Pos(outer.Pos()), "the loop does not contain exactly one Channel.Read")
 			continue
 		}
 		nb := resultOf(reads[0], 0)
@@ -705,7 +717,7 @@ func checkReadUntilLoops(c *Ctx, r *Report) {
 				}
 			})
 		}
-		r.Check(ok, rule, shortFn(fn)+" accumulates", c.Pos(fn.Pos()), "rb = append(rb, chunk...); returns rb on match", shortFn(fn)+": "+msg)
+		r.Check(ok, rule, shortFn(outer)+" accumulates", c.Pos(outer.Pos()), "rb = append(rb, chunk...); returns rb on match", shortFn(outer)+": "+msg)
 	}
 }
 
@@ -840,13 +852,25 @@ func checkSearchDepth(c *Ctx, r *Report) {
 			continue
 		}
 		calls := staticCallsTo(fn, prb)
+		var predAcc ssa.Value
+		if len(calls) == 0 {
+			if chRead := c.LookupFunc("channel", "Channel", "Read"); chRead != nil {
+				if d := readUntilDelegate(fn, chRead); d != nil && d.soundDelegation() == "" {
+					// the matcher lives in the predicate closure; the accumulation is its parameter
+					calls = staticCallsTo(d.Pred, prb)
+					predAcc = d.Pred.Params[0]
+				}
+			}
+		}
 		ok := len(calls) == 1
 		msg := "the matcher does not search processReadBuf(accumulated buffer, depth)"
 		if ok {
 			call := calls[0].(*ssa.Call)
 			buf, depth := call.Call.Args[0], call.Call.Args[1]
 			// buf is the accumulation (append(rb, nb...))
-			if ac, isCall := buf.(*ssa.Call); isCall {
+			if predAcc != nil {
+				ok = buf == predAcc
+			} else if ac, isCall := buf.(*ssa.Call); isCall {
 				if b, isB := ac.Call.Value.(*ssa.Builtin); !isB || b.Name() != "append" {
 					ok = false
 				}
@@ -860,7 +884,16 @@ func checkSearchDepth(c *Ctx, r *Report) {
 					msg = "the echo matcher's window is not max(PromptSearchDepth, 2*len(input)): long inputs are not found in the window"
 				} else {
 					l := linOf(dc.Call.Args[1], 0)
-					if _, isLen := l.coef["len("+fn.Params[2].Name()+")"]; !isLen || len(l.coef) != 1 {
+					inputName := fn.Params[2].Name()
+					if predAcc != nil {
+						// inside the closure the input is a captured variable
+						if cl, isCall := dc.Call.Args[1].(*ssa.Call); isCall && len(cl.Call.Args) == 1 {
+							if capturedParam(cl.Call.Args[0], fn.Params[2]) {
+								inputName = cl.Call.Args[0].Name()
+							}
+						}
+					}
+					if _, isLen := l.coef["len("+inputName+")"]; !isLen || len(l.coef) != 1 {
 						ok = false
 						msg = "the echo matcher's depth is not computed from the length of the input being matched"
 					}
@@ -878,7 +911,7 @@ func checkSearchDepth(c *Ctx, r *Report) {
 	d, l := "param:"+gsd.Params[0].Name(), "param:"+gsd.Params[1].Name()
 	for _, p := range gp {
 		k := "((2*" + l + ")>" + d + ")"
-		switch p.Assume[k] {
+		switch p.Lit(k) {
 		case "true":
 			okMax = okMax && len(p.Returns) == 1 && p.Returns[0] == "(2*"+l+")"
 		case "false":
@@ -1189,4 +1222,132 @@ func isCountingPhi(v ssa.Value) bool {
 		}
 	}
 	return hasConst && hasStep
+}
+
+// readUntilDelegation: a read-until variant that hands its match predicate to a shared loop helper.
+type readUntilDelegation struct {
+	Outer, Loop, Pred *ssa.Function
+	Call              *ssa.Call // the call of Loop in Outer
+	PredParam         int       // index of the predicate among Loop's parameters
+	chRead            *ssa.Function
+}
+
+func readUntilDelegate(fn, chRead *ssa.Function) *readUntilDelegation {
+	var out *readUntilDelegation
+	n := 0
+	for _, ci := range callInstrs(fn) {
+		call, ok := ci.(*ssa.Call)
+		if !ok {
+			continue
+		}
+		h := call.Call.StaticCallee()
+		if h == nil || h.Pkg != fn.Pkg || h == fn || len(chunkReads(h, chRead)) != 1 {
+			continue
+		}
+		for i, a := range call.Call.Args {
+			mc, ok := a.(*ssa.MakeClosure)
+			if !ok {
+				continue
+			}
+			pf, ok := mc.Fn.(*ssa.Function)
+			if !ok || len(pf.Params) != 1 || pf.Signature.Results().Len() != 1 {
+				continue
+			}
+			n++
+			out = &readUntilDelegation{Outer: fn, Loop: h, Pred: pf, Call: call, PredParam: i, chRead: chRead}
+		}
+	}
+	if n != 1 {
+		return nil
+	}
+	return out
+}
+
+// soundDelegation: the helper applies the predicate to its accumulation and to nothing else, returns the
+// accumulation exactly where the predicate held, and the variant returns the helper's results unchanged.
+func (d *readUntilDelegation) soundDelegation() string {
+	if d.PredParam >= len(d.Loop.Params) {
+		return "the predicate is not a parameter of the loop helper"
+	}
+	pp := d.Loop.Params[d.PredParam]
+	var predCalls []*ssa.Call
+	allInstrs(d.Loop, func(in ssa.Instruction) {
+		if call, ok := in.(*ssa.Call); ok && call.Call.Value == ssa.Value(pp) {
+			predCalls = append(predCalls, call)
+		}
+	})
+	if len(predCalls) != 1 || len(predCalls[0].Call.Args) != 1 {
+		return "the loop helper does not apply the match predicate exactly once per pass"
+	}
+	pc := predCalls[0]
+	acc, ok := pc.Call.Args[0].(*ssa.Call)
+	if !ok {
+		return "the loop helper does not hand the accumulated buffer to the match predicate"
+	}
+	if b, isB := acc.Call.Value.(*ssa.Builtin); !isB || b.Name() != "append" {
+		return "the loop helper does not hand the accumulated buffer to the match predicate"
+	}
+	// returns of (x, nil): x is the accumulation and the return is on the predicate's true edge
+	bad := ""
+	allInstrs(d.Loop, func(in ssa.Instruction) {
+		ret, isRet := in.(*ssa.Return)
+		if !isRet || len(ret.Results) != 2 || !isNilConst(ret.Results[1]) {
+			return
+		}
+		if ret.Results[0] != ssa.Value(acc) {
+			bad = "on a match the loop helper does not return everything it consumed"
+			return
+		}
+		if !guardedBy(ret, func(cv ssa.Value, t bool) bool { return cv == ssa.Value(pc) && t }) {
+			bad = "the loop helper returns success without the match predicate having held"
+		}
+	})
+	if bad != "" {
+		return bad
+	}
+	// the variant returns the helper's results as they are
+	okRet := false
+	allInstrs(d.Outer, func(in ssa.Instruction) {
+		ret, isRet := in.(*ssa.Return)
+		if !isRet || len(ret.Results) != 2 {
+			return
+		}
+		if ret.Results[0] == resultOf(d.Call, 0) && ret.Results[1] == resultOf(d.Call, 1) {
+			okRet = true
+		}
+	})
+	if !okRet {
+		return "the variant does not return what the loop helper returned"
+	}
+	return ""
+}
+
+// capturedParam: inside a closure, v is the enclosing function's parameter p (captured by value, or by reference
+// through the cell go/ssa spills a captured parameter to).
+func capturedParam(v ssa.Value, p *ssa.Parameter) bool {
+	if fv, ok := v.(*ssa.FreeVar); ok {
+		return freeVarBinding(fv) == ssa.Value(p)
+	}
+	u, ok := v.(*ssa.UnOp)
+	if !ok || u.Op != token.MUL {
+		return false
+	}
+	fv, ok := u.X.(*ssa.FreeVar)
+	if !ok {
+		return false
+	}
+	a, ok := freeVarBinding(fv).(*ssa.Alloc)
+	if !ok {
+		return false
+	}
+	n, okStore := 0, false
+	for _, ref := range *a.Referrers() {
+		if st, ok := ref.(*ssa.Store); ok && st.Addr == a {
+			n++
+			if st.Val == ssa.Value(p) {
+				okStore = true
+			}
+		}
+	}
+	return n == 1 && okStore
 }
